@@ -14,7 +14,7 @@ open FDA.Dict FDA.Slice
 
 /-- Exception classes the harness distinguishes. -/
 inductive Err
-  | typeError | valueError | indexError | keyError | other
+  | typeError | valueError | indexError | keyError | notImplemented | other
   deriving Repr, DecidableEq
 
 variable {α β : Type}
@@ -116,26 +116,31 @@ def irregGetOld (d : D α) (ix : Index) : Except Err (D α) :=
 inductive Comp (α : Type)
   | dense (rows : List α)
   | irreg (d : D α)
+  | basis (rows : List α)      -- `BasisFunctionalData`: rows of the coefficient matrix
   deriving Repr
 
 def Comp.nObs : Comp α → Nat
   | .dense rows => rows.length
   | .irreg d => d.length
+  | .basis rows => rows.length
 
 /-- The contents in order, labels forgotten. -/
 def Comp.contents : Comp α → List α
   | .dense rows => rows
   | .irreg d => vals d
+  | .basis rows => rows
 
 /-- A freshly built dataset with the same content (the twin of the property). -/
 def Comp.twin : Comp α → Comp α
   | .dense rows => .dense rows
   | .irreg d => .irreg (relabel d)
+  | .basis rows => .basis rows
 
 def Comp.get (c : Comp α) (ix : Index) : Except Err (Comp α) :=
   match c with
   | .dense rows => (denseGet rows ix).map .dense
   | .irreg d => (irregGet d ix).map .irreg
+  | .basis rows => (denseGet rows ix).map .basis
 
 def allEqNat : List Nat → Bool
   | [] => true
@@ -162,16 +167,17 @@ def multiGet (cs : List (Comp α)) (ix : Index) : Except Err (List (Comp α)) :=
 def Comp.iter : Comp α → List (Comp α)
   | .dense rows => (iterDense rows).map .dense
   | .irreg d => (iterIrreg d).map .irreg
+  | .basis rows => (iterDense rows).map .basis
 
 def allDenseRows : List (Comp α) → Option (List (List α))
   | [] => some []
   | .dense r :: t => (allDenseRows t).map (r :: ·)
-  | .irreg _ :: _ => none
+  | _ :: _ => none
 
 def allIrregDicts : List (Comp α) → Option (List (D α))
   | [] => some []
   | .irreg d :: t => (allIrregDicts t).map (d :: ·)
-  | .dense _ :: _ => none
+  | _ :: _ => none
 
 /-- `X.concatenate(*pieces)` for univariate pieces of one class (`TypeError` otherwise),
 irregular data with the label arithmetic of the code. -/
@@ -186,6 +192,7 @@ def concatCompsImpl (pieces : List (Comp α)) : Except Err (Comp α) :=
     match allIrregDicts pieces with
     | some ds => .ok (.irreg (concatImpl ds))
     | none => .error .typeError
+  | .basis _ :: _ => .error .notImplemented     -- `BasisFunctionalData.concatenate` raises `NotImplementedError`
 
 /-- The same with the labelling the property asks for. -/
 def concatCompsSpec (pieces : List (Comp α)) : Except Err (Comp α) :=
@@ -199,6 +206,88 @@ def concatCompsSpec (pieces : List (Comp α)) : Except Err (Comp α) :=
     match allIrregDicts pieces with
     | some ds => .ok (.irreg (concatSpec ds))
     | none => .error .typeError
+  | .basis _ :: _ => .error .notImplemented     -- `BasisFunctionalData.concatenate` raises `NotImplementedError`
+
+/-! ### Whole objects: univariate or multivariate -/
+
+inductive Obj (α : Type)
+  | uni (c : Comp α)
+  | multi (cs : List (Comp α))
+  deriving Repr
+
+def Obj.get (x : Obj α) (ix : Index) : Except Err (Obj α) :=
+  match x with
+  | .uni c => (c.get ix).map .uni
+  | .multi cs => (multiGet cs ix).map .multi
+
+def allUniComps : List (Obj α) → Option (List (Comp α))
+  | [] => some []
+  | .uni c :: t => (allUniComps t).map (c :: ·)
+  | .multi _ :: _ => none
+
+def allMultiComps : List (Obj α) → Option (List (List (Comp α)))
+  | [] => some []
+  | .multi cs :: t => (allMultiComps t).map (cs :: ·)
+  | .uni _ :: _ => none
+
+def concatColumns (cat : List (Comp α) → Except Err (Comp α)) : List (List (Comp α)) → Except Err (List (Comp α))
+  | [] => .ok []
+  | col :: cols =>
+    match cat col with
+    | .error e => .error e
+    | .ok g =>
+      match concatColumns cat cols with
+      | .error e => .error e
+      | .ok gs => .ok (g :: gs)
+
+/-- `MultivariateFunctionalData.concatenate`: same number of components (`ValueError`), component
+`k` of the result is the concatenation of the `k`-th components, then the constructor's
+number-of-observations check. -/
+def concatMultiWith (cat : List (Comp α) → Except Err (Comp α)) (objs : List (List (Comp α))) :
+    Except Err (List (Comp α)) :=
+  match objs with
+  | [] => .error .other
+  | first :: _ =>
+    if ¬ allEqNat (objs.map List.length) then .error .valueError
+    else match concatColumns cat ((List.range first.length).map fun k => objs.filterMap (·[k]?)) with
+      | .error e => .error e
+      | .ok cs => if allEqNat (cs.map Comp.nObs) then .ok cs else .error .valueError
+
+def concatObjsWith (cat : List (Comp α) → Except Err (Comp α)) (objs : List (Obj α)) : Except Err (Obj α) :=
+  match objs with
+  | [] => .error .other
+  | .uni _ :: _ =>
+    match allUniComps objs with
+    | some cs => (cat cs).map .uni
+    | none => .error .typeError
+  | .multi _ :: _ =>
+    match allMultiComps objs with
+    | some ms => (concatMultiWith cat ms).map .multi
+    | none => .error .other
+
+/-- Concatenation as coded / as the property asks. -/
+def concatObjsImpl (objs : List (Obj α)) : Except Err (Obj α) := concatObjsWith concatCompsImpl objs
+def concatObjsSpec (objs : List (Obj α)) : Except Err (Obj α) := concatObjsWith concatCompsSpec objs
+
+/-- A grouping of pieces: concatenate the results of the sub-groupings. -/
+inductive Tree (α : Type)
+  | leaf (x : Obj α)
+  | node (ts : List (Tree α))
+
+mutual
+  def Tree.eval (cat : List (Obj α) → Except Err (Obj α)) : Tree α → Except Err (Obj α)
+    | .leaf x => .ok x
+    | .node ts => match Tree.evalAll cat ts with
+      | .error e => .error e
+      | .ok xs => cat xs
+  def Tree.evalAll (cat : List (Obj α) → Except Err (Obj α)) : List (Tree α) → Except Err (List (Obj α))
+    | [] => .ok []
+    | t :: ts => match Tree.eval cat t with
+      | .error e => .error e
+      | .ok x => match Tree.evalAll cat ts with
+        | .error e => .error e
+        | .ok xs => .ok (x :: xs)
+end
 
 /-! ### The iteration protocol of the analysis methods -/
 
